@@ -41,6 +41,13 @@ class Config:
     innovation_filtering: float | None = 5.0
 
 
+def _as_scalar(value):
+    """Size-1 arrays (rows of a named vector) no longer convert implicitly to scalars in recent numpy."""
+    if isinstance(value, np.ndarray) and value.size == 1:
+        return value.reshape(-1)[0]
+    return value
+
+
 class BasicBlock:
     """
     A run of statements without control flow.
@@ -100,6 +107,7 @@ class BasicBlock:
 
     def execute(self, *args, **kwargs):
         # Note: The list of statements is ordered and can get CSE or reordered within the block because we know it is straight calculation without control flow (a basic block)
+        args = [_as_scalar(arg) for arg in args]
         temporary_values = {}
         for name, expr in self._prefix:
             temporary_values[str(name)] = expr(*args, **kwargs, **temporary_values)
@@ -1128,7 +1136,7 @@ class SklearnEKFAdapter(BaseEstimator):
                                 ),
                             ),
                             self.model_.innovations[key],
-                        )
+                        ).item()
                     )
                 )
                 if np.any(self.model_.sensor_prediction_uncertainty[key] < 0.0):
